@@ -314,6 +314,23 @@ func c04Agree(c *fw.Ctx, mode, addr string) (nontrivial bool) {
 		if w.Status != 200 {
 			c.Violate("agree|"+mode+"|web|"+ask.how+"|"+nameClass(n), fmt.Sprintf("web UI message asked for %q (%s of %q) answered %d; the message is in mailbox %q", ask.name, ask.how, addr, w.Status, n), cas)
 		}
+		// every other endpoint that takes a mailbox name: single message, source, HTML and source
+		// views, mark-seen
+		for _, ep := range []struct{ what, method, path, body string }{
+			{"REST message", "GET", "/api/v1/mailbox/" + url.PathEscape(ask.name) + "/" + id, ""},
+			{"REST source", "GET", "/api/v1/mailbox/" + url.PathEscape(ask.name) + "/" + id + "/source", ""},
+			{"REST mark-seen", "PATCH", "/api/v1/mailbox/" + url.PathEscape(ask.name) + "/" + id, `{"seen":true}`},
+			{"web UI source", "GET", "/serve/mailbox/" + url.PathEscape(ask.name) + "/" + id + "/source", ""},
+			{"web UI html", "GET", "/serve/mailbox/" + url.PathEscape(ask.name) + "/" + id + "/html", ""},
+		} {
+			var body []byte
+			if ep.body != "" {
+				body = []byte(ep.body)
+			}
+			if e := s.HTTP(ep.method, ep.path, body); e.Status != 200 {
+				c.Violate("agree|"+mode+"|"+strings.ReplaceAll(ep.what, " ", "-")+"|"+ask.how+"|"+nameClass(n), fmt.Sprintf("%s asked for %q (%s of %q) answered %d; the message is in mailbox %q", ep.what, ask.name, ask.how, addr, e.Status, n), cas)
+			}
+		}
 		if strings.ContainsAny(ask.name, " ") {
 			continue // POP3 arguments are space separated
 		}
@@ -333,6 +350,12 @@ func c04Agree(c *fw.Ctx, mode, addr string) (nontrivial bool) {
 		if u != "+OK 1 "+id+"\r\n" {
 			c.Violate("agree|"+mode+"|pop3|"+ask.how, fmt.Sprintf("POP3 USER %q (%s of %q) does not show the message (UIDL 1 -> %q); it is in mailbox %q", ask.name, ask.how, addr, strings.TrimSpace(u), n), cas)
 		}
+	}
+	// finally the destructive endpoints, by the original address: delete the message, and purge
+	if e := s.HTTP("DELETE", "/api/v1/mailbox/"+url.PathEscape(addr)+"/"+id, nil); e.Status != 200 {
+		c.Violate("agree|"+mode+"|REST-delete|by-address|"+nameClass(n), fmt.Sprintf("REST delete asked for %q answered %d; the message is in mailbox %q", addr, e.Status, n), cas)
+	} else if left, _ := s.StoreH.Store.GetMessages(n); len(left) != 0 {
+		c.Violate("agree|"+mode+"|REST-delete|by-address|not-deleted", fmt.Sprintf("REST delete asked for %q answered 200 but mailbox %q still lists %d messages", addr, n, len(left)), cas)
 	}
 	return true
 }
